@@ -12,7 +12,8 @@ Import TlsPolicy Wire.
 Definition today : tables :=
   {| tb_auth := auth_sets; tb_ctl := ctl_sites; tb_enc := enc_sites; tb_calls := call_keys;
      tb_lits := msg_lits; tb_writes := clear_writes; tb_flows := marshal_flows; tb_crw := crypto_rw_shape;
-     tb_sniff := sniff_sites; tb_listeners := listener_calls |}.
+     tb_sniff := sniff_sites; tb_listeners := listener_calls;
+     tb_tls_uses := tls_uses; tb_tls_origin := tls_origin_args; tb_tls_server_calls := sniff_tls_server_calls |}.
 
 (* the sniff with today's translated head byte constant *)
 Definition sniff_today := Sniff.sniff_with GenWire.frp_tls_head_byte.
@@ -251,6 +252,22 @@ Proof.
   intros c h l configured. exact (forced_no_session_any_listener today c h l configured (facts_sniff today C05_today_facts_ok)).
 Qed.
 Print Assumptions C05_forced_no_session_without_tls_any_listener.
+
+(* the TLS identity rule on EVERY listener frps opens on the network (tcp, tls-mux, kcp, websocket — all served by
+   HandleListener and its sniff — and quic): the tls.Config that terminates TLS there is the object built by
+   NewServerTLSConfig from the configured cert/key/CA, or a clone that only sets harmless fields (reflective over
+   t5w's table of TLS-terminating sites); hence with a trusted CA a client certificate of that CA is required there *)
+Theorem C05_identity_rule_on_every_listener : forall l pair_ok read_ok cert key ca p,
+  In l network_kinds -> new_server_tls pair_ok read_ok cert key ca = Some p ->
+  listener_policy today p l = Some p /\
+  (ca <> ""%string -> sp_client_auth p = RequireAndVerifyClientCert /\ sp_client_cas p = Some ca).
+Proof.
+  intros l pair_ok read_ok cert key ca p Hin Hp. split.
+  - exact (listener_policy_configured today p l (facts_tlscfg today C05_today_facts_ok) Hin).
+  - intros Hca. destruct (server_requires_client_cert_iff_ca pair_ok read_ok cert key ca p Hp) as [H1 [H2 _]].
+    split; [now apply H1|now apply H2].
+Qed.
+Print Assumptions C05_identity_rule_on_every_listener.
 
 (* quic (client Open(), server HandleQUICListener: no sniff): always under TLS, whatever tls.enable says *)
 Theorem C05_quic_always_tls : forall c, is_quic c = true -> plan c = DialErr \/ conn_tls c = true.
